@@ -81,6 +81,13 @@ func main() {
 			}
 			return nil
 		})
+	} else if mode == "lines" || mode == "lines-in" {
+		sc := bufio.NewScanner(os.Stdin)
+		sc.Buffer(make([]byte, 1<<20), 1<<24)
+		for sc.Scan() {
+			b, _ := hex.DecodeString(sc.Text())
+			srcs = append(srcs, string(b))
+		}
 	} else {
 		n, _ := strconv.Atoi(os.Args[2])
 		seed, _ := strconv.Atoi(os.Args[3])
